@@ -168,4 +168,30 @@ Proof.
   intros Hc Hf. apply flow_closedb_spec. eapply compile_with_closed; [|exact Hf].
   intros us. unfold compile_flow_validation. rewrite Hc. apply node_id_check_spec.
 Qed.
+
+(* the sentinel never leaves the compiler: no exit of a compiled flow leads to the HARD_EXIT marker *)
+Lemma render_dest_not_sentinel d : render_dest d <> Some hard_exit_sentinel.
+Proof.
+  destruct d as [u|]; cbn; [|discriminate]. destruct (str_eqb u hard_exit_sentinel) eqn:E; [discriminate|].
+  intros H. injection H as ->. rewrite str_eqb_refl in E. discriminate.
+Qed.
+
+Theorem compile_no_sentinel validate name rows f :
+  compile_with fresh validate name rows = Ok f ->
+  forall nd e, In nd (f_nodes f) -> In e (n_exits nd) -> e_dest e <> Some hard_exit_sentinel.
+Proof.
+  unfold compile_with. destruct (crun fresh rows) as [s|x]; [|discriminate]. unfold cfinish_with.
+  destruct (cs_heads s); [|discriminate]. destruct (cs_stack s) as [|root [|? ?]]; try discriminate.
+  destruct (mapM _ root) as [ls|x]; [|discriminate]. destruct (mapM _ (concat ls)) as [nds|x]; [|discriminate].
+  destruct (validate _); [discriminate|]. intros H. injection H as <-. cbn. intros nd e Hnd He.
+  apply in_map_iff in Hnd as (cn & <- & _). unfold render_node in He.
+  destruct (cn_body cn) as [x|cls r|r]; cbn in He.
+  - destruct He as [<-|[]]. apply render_dest_not_sentinel.
+  - apply in_map_iff in He as (c & <- & _). apply render_dest_not_sentinel.
+  - apply in_map_iff in He as (c & <- & _). apply render_dest_not_sentinel.
+Qed.
 End Closed.
+
+(* ---------------------------------------------------------------- the executable supply *)
+Lemma std_fresh_inj a b : std_fresh a = std_fresh b -> a = b.
+Proof. unfold std_fresh. intros H. assert (H' : (1114112 + N.of_nat a = 1114112 + N.of_nat b)%N) by congruence. lia. Qed.
